@@ -213,9 +213,45 @@ def reshape_cases(max_axes: int, max_len: int, zero_axes: int):
                        "outputs": [["o", 1]]}
 
 
+def advanced_index_layouts():
+    """a 4-D operand (2,3,2,3) indexed, on every axis, by a full slice, a
+    proper slice, an integer, a 1-D index array or a (2,1)-shaped one - all
+    layouts with at least one index array: contiguous and non-contiguous
+    groups of advanced indices, preceded / separated / followed by slices"""
+    shape = [2, 3, 2, 3]
+    kinds = ("full", "slice", "int", "arr", "arr2")
+    for layout in itertools.product(kinds, repeat=4):
+        if not any(k.startswith("arr") for k in layout):
+            continue
+        if sum(k != "full" for k in layout) > 3 and "slice" in layout:
+            continue                    # (keep the count near 300)
+        nodes = [_input(shape)]
+        args = [["n", 0]]
+        idx = []
+        for ax, k in enumerate(layout):
+            n = shape[ax]
+            if k == "full":
+                idx.append(["slice", None, None, None])
+            elif k == "slice":
+                idx.append(["slice", 1, None, None])
+            elif k == "int":
+                idx.append(["int", n - 1])
+            else:
+                vals = [n - 1, 0] if k == "arr" else [0, n - 1]
+                sh = [2] if k == "arr" else [2, 1]
+                nodes.append({"op": "placeholder", "p": {
+                    "name": f"i{ax}", "shape": sh, "dtype": "int32",
+                    "values": vals, "scale": 0}})
+                args.append(["n", len(nodes) - 1])
+                idx.append(["arr", len(args) - 1])
+        nodes.append({"op": "index", "args": args, "p": {"idx": idx}})
+        yield {"nodes": nodes, "outputs": [["o", len(nodes) - 1]]}
+
+
 def _enumerated(tier: str):
     pl = plan(tier)
     return itertools.chain(
+        advanced_index_layouts(),
         slice_cases(pl["slice_nd"]),
         reshape_cases(pl["reshape_axes"], pl["reshape_len"], pl["zero_axes"]))
 
